@@ -1,0 +1,298 @@
+//! Verification hooks (only compiled with `--cfg hashbrown_verif`).
+//!
+//! Read-only views of the raw table state and thin wrappers around the
+//! crate-private pure functions, so that an external harness can compare the
+//! implementation with a formal model. Nothing here changes behaviour.
+#![allow(missing_docs, clippy::missing_safety_doc, clippy::must_use_candidate)]
+
+use super::{
+    bucket_mask_to_capacity, capacity_to_buckets, h1, Allocator, ProbeSeq, RawTable,
+    RawTableInner, TableLayout,
+};
+use crate::control::{Group, Tag};
+use ::alloc::vec::Vec;
+use core::ptr::NonNull;
+
+/// Width in bytes of the control-byte scanner selected for this build.
+pub const GROUP_WIDTH: usize = Group::WIDTH;
+
+/// Snapshot of the bookkeeping state of a raw table.
+#[derive(Clone, Debug, PartialEq, Eq)]
+pub struct RawDump {
+    pub bucket_mask: usize,
+    pub items: usize,
+    pub growth_left: usize,
+    /// All `buckets + Group::WIDTH` control bytes (including the mirror).
+    pub ctrl: Vec<u8>,
+    /// `true` when the table points at the static empty singleton.
+    pub singleton: bool,
+    /// `(block size, block align, ctrl offset)` of the live allocation.
+    pub alloc: Option<(usize, usize, usize)>,
+    /// Address of the control bytes (for alignment / aliasing checks).
+    pub ctrl_addr: usize,
+}
+
+impl<T, A: Allocator> RawTable<T, A> {
+    pub fn verif_dump(&self) -> RawDump {
+        let t = &self.table;
+        let n = t.bucket_mask + 1 + Group::WIDTH;
+        let mut ctrl = Vec::with_capacity(n);
+        for i in 0..n {
+            ctrl.push(unsafe { *t.ctrl.as_ptr().add(i) });
+        }
+        let alloc = if t.bucket_mask == 0 {
+            None
+        } else {
+            Self::TABLE_LAYOUT
+                .calculate_layout_for(t.bucket_mask + 1)
+                .map(|(l, off)| (l.size(), l.align(), off))
+        };
+        RawDump {
+            bucket_mask: t.bucket_mask,
+            items: t.items,
+            growth_left: t.growth_left,
+            ctrl,
+            singleton: t.ctrl.as_ptr().cast_const()
+                == Group::static_empty().as_ptr().cast::<u8>(),
+            alloc,
+            ctrl_addr: t.ctrl.as_ptr() as usize,
+        }
+    }
+
+    /// The element stored in bucket `index` if its control byte says FULL.
+    pub fn verif_bucket(&self, index: usize) -> Option<&T> {
+        if self.table.bucket_mask == 0 || index > self.table.bucket_mask {
+            return None;
+        }
+        unsafe {
+            if self.table.is_bucket_full(index) {
+                Some(self.bucket(index).as_ref())
+            } else {
+                None
+            }
+        }
+    }
+
+    /// Address of the element slot of bucket `index` (no dereference).
+    pub fn verif_bucket_addr(&self, index: usize) -> usize {
+        if self.table.bucket_mask == 0 || index > self.table.bucket_mask {
+            return 0;
+        }
+        unsafe { self.bucket(index).as_ptr() as usize }
+    }
+
+    pub fn verif_table_layout() -> (usize, usize) {
+        (Self::TABLE_LAYOUT.size, Self::TABLE_LAYOUT.ctrl_align)
+    }
+
+    /// Drives `RawIterRange::split` along a caller-chosen binary tree (pre-order
+    /// decisions: `true` = try to split this node, `false` = consume it as a
+    /// leaf; when the decisions run out every node is a leaf) and returns the
+    /// bucket indices yielded by each leaf, left to right.
+    #[cfg(feature = "rayon")]
+    pub fn verif_split_leaves(&self, decisions: &[bool]) -> Vec<Vec<usize>> {
+        fn go<T, A: Allocator>(
+            t: &RawTable<T, A>,
+            it: super::RawIterRange<T>,
+            dec: &mut core::slice::Iter<'_, bool>,
+            out: &mut Vec<Vec<usize>>,
+        ) {
+            if dec.next().copied().unwrap_or(false) {
+                let (l, r) = it.split();
+                match r {
+                    Some(r) => {
+                        go(t, l, dec, out);
+                        go(t, r, dec, out);
+                    }
+                    None => go(t, l, dec, out),
+                }
+            } else {
+                let mut v = Vec::new();
+                for b in it {
+                    v.push(unsafe { t.bucket_index(&b) });
+                }
+                out.push(v);
+            }
+        }
+        let mut out = Vec::new();
+        if self.table.bucket_mask == 0 && self.table.items == 0 {
+            // the singleton: still a valid (empty) range
+        }
+        let it = unsafe { self.iter().iter };
+        let mut d = decisions.iter();
+        go(self, it, &mut d, &mut out);
+        out
+    }
+}
+
+impl<K, V, S, A: Allocator> crate::HashMap<K, V, S, A> {
+    pub fn verif_dump(&self) -> RawDump {
+        self.table.verif_dump()
+    }
+    pub fn verif_bucket(&self, index: usize) -> Option<&(K, V)> {
+        self.table.verif_bucket(index)
+    }
+    pub fn verif_bucket_addr(&self, index: usize) -> usize {
+        self.table.verif_bucket_addr(index)
+    }
+    pub fn verif_table_layout() -> (usize, usize) {
+        RawTable::<(K, V), A>::verif_table_layout()
+    }
+    #[cfg(feature = "rayon")]
+    pub fn verif_split_leaves(&self, decisions: &[bool]) -> Vec<Vec<usize>> {
+        self.table.verif_split_leaves(decisions)
+    }
+}
+
+impl<T, S, A: Allocator> crate::HashSet<T, S, A> {
+    pub fn verif_dump(&self) -> RawDump {
+        self.map.table.verif_dump()
+    }
+    pub fn verif_bucket(&self, index: usize) -> Option<&T> {
+        self.map.table.verif_bucket(index).map(|kv| &kv.0)
+    }
+    #[cfg(feature = "rayon")]
+    pub fn verif_split_leaves(&self, decisions: &[bool]) -> Vec<Vec<usize>> {
+        self.map.table.verif_split_leaves(decisions)
+    }
+}
+
+impl<T, A: Allocator> crate::HashTable<T, A> {
+    pub fn verif_dump(&self) -> RawDump {
+        self.raw.verif_dump()
+    }
+    pub fn verif_bucket(&self, index: usize) -> Option<&T> {
+        self.raw.verif_bucket(index)
+    }
+    pub fn verif_bucket_addr(&self, index: usize) -> usize {
+        self.raw.verif_bucket_addr(index)
+    }
+    pub fn verif_table_layout() -> (usize, usize) {
+        RawTable::<T, A>::verif_table_layout()
+    }
+    #[cfg(feature = "rayon")]
+    pub fn verif_split_leaves(&self, decisions: &[bool]) -> Vec<Vec<usize>> {
+        self.raw.verif_split_leaves(decisions)
+    }
+}
+
+// ---------------------------------------------------------------------------
+// Pure functions
+// ---------------------------------------------------------------------------
+
+pub fn verif_h1(hash: u64) -> usize {
+    h1(hash)
+}
+
+pub fn verif_tag_full(hash: u64) -> u8 {
+    Tag::full(hash).verif_to_u8()
+}
+
+pub fn verif_tag_class(b: u8) -> (bool, bool, bool) {
+    let t = Tag::verif_from_u8(b);
+    (
+        t.is_full(),
+        t.is_special(),
+        t.is_special() && t.special_is_empty(),
+    )
+}
+
+/// `capacity_to_buckets(cap, TableLayout { size, ctrl_align })`; `cap != 0`.
+pub fn verif_capacity_to_buckets(cap: usize, size: usize, ctrl_align: usize) -> Option<usize> {
+    capacity_to_buckets(cap, TableLayout { size, ctrl_align })
+}
+
+pub fn verif_bucket_mask_to_capacity(bucket_mask: usize) -> usize {
+    bucket_mask_to_capacity(bucket_mask)
+}
+
+/// `TableLayout { size, ctrl_align }.calculate_layout_for(buckets)` as
+/// `(len, align, ctrl_offset)`; `buckets` must be a power of two and
+/// `ctrl_align` a power of two `>= Group::WIDTH`.
+pub fn verif_calculate_layout_for(
+    size: usize,
+    ctrl_align: usize,
+    buckets: usize,
+) -> Option<(usize, usize, usize)> {
+    TableLayout { size, ctrl_align }
+        .calculate_layout_for(buckets)
+        .map(|(l, off)| (l.size(), l.align(), off))
+}
+
+/// First `n` positions of the probe sequence for `hash` in a table with
+/// `bucket_mask` (`n` must not exceed the number of groups, the bound the
+/// table code itself relies on).
+pub fn verif_probe_positions(hash: u64, bucket_mask: usize, n: usize) -> Vec<usize> {
+    let mut seq = ProbeSeq {
+        pos: h1(hash) & bucket_mask,
+        stride: 0,
+    };
+    let mut out = Vec::with_capacity(n);
+    for k in 0..n {
+        out.push(seq.pos);
+        if k + 1 < n {
+            seq.move_next(bucket_mask);
+        }
+    }
+    out
+}
+
+pub fn verif_is_in_same_group(i: usize, new_i: usize, hash: u64, bucket_mask: usize) -> bool {
+    let t = RawTableInner {
+        bucket_mask,
+        ctrl: NonNull::dangling(),
+        growth_left: 0,
+        items: 0,
+    };
+    t.is_in_same_group(i, new_i, hash)
+}
+
+#[repr(C, align(16))]
+struct AlignedBytes([u8; 16]);
+
+fn load(bytes: &[u8]) -> Group {
+    assert!(bytes.len() >= Group::WIDTH);
+    let mut buf = AlignedBytes([0; 16]);
+    buf.0[..Group::WIDTH].copy_from_slice(&bytes[..Group::WIDTH]);
+    unsafe { Group::load_aligned(buf.0.as_ptr().cast()) }
+}
+
+/// Result of a scanner primitive: the indices it iterates over, in iteration
+/// order, plus the three summary queries the table code uses.
+#[derive(Clone, Debug, PartialEq, Eq)]
+pub struct MaskView {
+    pub iter: Vec<usize>,
+    pub any_bit_set: bool,
+    pub lowest_set_bit: Option<usize>,
+    pub leading_zeros: usize,
+    pub trailing_zeros: usize,
+}
+
+fn view(m: crate::control::VerifBitMask) -> MaskView {
+    MaskView {
+        iter: m.into_iter().collect(),
+        any_bit_set: m.any_bit_set(),
+        lowest_set_bit: m.lowest_set_bit(),
+        leading_zeros: m.leading_zeros(),
+        trailing_zeros: m.trailing_zeros(),
+    }
+}
+
+pub fn verif_match_tag(bytes: &[u8], tag: u8) -> MaskView {
+    view(load(bytes).match_tag(Tag::verif_from_u8(tag)))
+}
+pub fn verif_match_empty(bytes: &[u8]) -> MaskView {
+    view(load(bytes).match_empty())
+}
+pub fn verif_match_empty_or_deleted(bytes: &[u8]) -> MaskView {
+    view(load(bytes).match_empty_or_deleted())
+}
+pub fn verif_match_full(bytes: &[u8]) -> MaskView {
+    view(load(bytes).match_full())
+}
+pub fn verif_convert(bytes: &[u8]) -> Vec<u8> {
+    let g = load(bytes).convert_special_to_empty_and_full_to_deleted();
+    let mut buf = AlignedBytes([0; 16]);
+    unsafe { g.store_aligned(buf.0.as_mut_ptr().cast()) };
+    buf.0[..Group::WIDTH].to_vec()
+}
